@@ -107,7 +107,13 @@ class Sandbox(object):
                     # unrelated rules without a trailing newline are the interesting case for appending;
                     # the global file has CRLF line endings (written by a Windows editor; git reads it the same)
                     nl = "\n" if scope == "repo" else "\r\n"
-                    fh.write(nl.join(lines) + ("" if (x["aforeign"] and not x["adiff"]) else nl if lines else ""))
+                    # (the unrelated rule alone: unterminated, or - every other trace, global file - saved with its CRLF)
+                    unterminated = x["aforeign"] and not x["adiff"] and not (scope == "global" and getattr(self, "variant", 0) % 2)
+                    text = nl.join(lines) + ("" if unterminated else nl if lines else "")
+                    fh.write(text)
+                # the line end the unrelated rule was saved with (None: it is the unterminated last line)
+                self.foreign_end = getattr(self, "foreign_end", {})
+                self.foreign_end[scope] = (nl if text.startswith(FOREIGN_RULE + nl) else None) if x["aforeign"] else None
 
     def project(self):
         out = {}
@@ -150,6 +156,13 @@ class Sandbox(object):
                 x.update({"afile": True, "aforeign": FOREIGN_RULE in other, "adiff": nd >= 1, "amerge": nm >= 1})
                 x["_dups"] = max(nd, nm) > 1
                 x["_garbled"] = [l for l in other if l != FOREIGN_RULE]
+                # "keeping existing attributes content": the unrelated rule keeps the line end it was saved with
+                want = getattr(self, "foreign_end", {}).get(scope)
+                if want is not None:
+                    with io.open(a, "rb") as fh:
+                        raw = fh.read().decode("utf8")
+                    if FOREIGN_RULE in raw and not raw.startswith(FOREIGN_RULE + want):
+                        x["_garbled"].append("line end of the existing rule rewritten: %r" % raw[:len(FOREIGN_RULE) + 2])
             else:
                 x.update({"afile": False, "aforeign": False, "adiff": False, "amerge": False, "_dups": False, "_garbled": []})
             out[scope] = x
@@ -204,6 +217,7 @@ def replay(task):
     k, trace, root = task
     d = os.path.join(root, "t%d" % k)
     sb = Sandbox(d)
+    sb.variant = k
     problems = []
     try:
         sb.install(trace["init"])
